@@ -17,6 +17,7 @@
     C08_names           the same, spelled for two `add_name_ns` calls on a reachable Xot
     C08_builtins        built-in ids are distinct and resolve to their standard strings
     C08_clone           a clone answers every lookup like its source
+    C08_bulk_is_history the driver's shortcut for the long history is the model's history
     C08_wraps, C08_full_false, C08_wraps_names/_prefixes/_namespaces
                         THE DEFECT: the (2^bits+1)-th distinct value gets the id of the first; the
                         unbounded claim (`C08_fullStatement`) is false at every width
@@ -251,6 +252,16 @@ theorem C08_wraps_namespaces :
     (by rw [hlen]; decide)
   rw [hlen] at h
   exact ⟨by rw [hid]; exact h, by decide⟩
+
+/-- The correspondence suite's one long history (`idmap bulk_names/_prefixes/_namespaces n p …`) is
+    answered by the driver with `registerRange`, a linear-time shortcut; it *is* the history of
+    `get_id_mut` calls on `p0, p1, …, p(n-1)` (for names: paired with a namespace id). -/
+theorem C08_bulk_is_history (bits : Nat) (p : Str) (ns n : Nat) (m : IdMap Str) (m' : IdMap NameKey) :
+    registerRange bits m (bulkValue p) n = registerAll bits m ((List.range n).map (bulkValue p)) ∧
+    registerRange bits m' (fun i => (bulkValue p i, ns)) n =
+      registerAll bits m' ((List.range n).map (fun i => (bulkValue p i, ns))) :=
+  ⟨registerRange_eq bits m _ (bulkValue_inj p) n,
+   registerRange_eq bits m' _ (fun i j h => bulkValue_inj p i j (Prod.mk.inj h).1) n⟩
 
 /-! ### Non-vacuity -/
 
